@@ -377,10 +377,8 @@ def fed_readers():
     return out
 
 
-def fed_build(rcfg, scfg, sfield, tfc, candles):
-    from hexital import Hexital
-    src = make(scfg)
-    sname = src.name + ("." + sfield if sfield else "")
+def fed_kw(rcfg, scfg, sfield):
+    sname = make(scfg).name + ("." + sfield if sfield else "")
     kw = dict(rcfg["kw"])
     if "cls" in rcfg:
         kw["input_value"] = sname
@@ -388,12 +386,17 @@ def fed_build(rcfg, scfg, sfield, tfc, candles):
         kw["indicator"] = sname
     else:
         kw["indicator_one"] = sname
-    rdr = make({**rcfg, "kw": kw})
-    hx = Hexital("h", candles, [src, rdr], **host_kw(tfc))
+    return kw
+
+
+def fed_build(rcfg, scfg, sfield, tfc, candles):
+    from hexital import Hexital
+    rdr = make({**rcfg, "kw": fed_kw(rcfg, scfg, sfield)})
+    hx = Hexital("h", candles, [make(scfg), rdr], **host_kw(tfc))
     return hx, rdr.name
 
 
-def run_fed(rep, rlabel, slabel, sfield, tfc, fam, word, raw, horizon):
+def run_fed(rep, rlabel, slabel, sfield, tfc, fam, word, raw, horizon, prop="C09"):
     rcfg, scfg = BY_LABEL[rlabel], BY_LABEL[slabel]
     kind = rcfg.get("cls", rcfg.get("analysis"))
     for mode in ("append1", "batch"):
@@ -411,25 +414,31 @@ def run_fed(rep, rlabel, slabel, sfield, tfc, fam, word, raw, horizon):
                     rep.inc("transitions", len(raw))
         except Horizon:
             rep.inc("executions")
-            rep.violation(f"C09|horizon|{kind}<-{slabel}", dict(case, oracle="horizon"))
+            rep.violation(f"{prop}|horizon|{kind}<-{slabel}", dict(case, oracle="horizon"))
             continue
         except Exception as e:
             rep.inc("executions")
-            rep.violation(f"C09|raised|{kind}<-{slabel}|{type(e).__name__}", dict(case, oracle="raised", error=repr(e)))
+            if prop == "C09":
+                rep.violation(f"C09|raised|{kind}<-{slabel}|{type(e).__name__}", dict(case, oracle="raised", error=repr(e)))
+            else:
+                rep.inc("raised_handed_to_C09")
             continue
         rep.inc("executions")
         from ..common import canon_candles
         ind = hx.indicator(rname)
         rep.add("states", canon_candles(ind.candles))
-        check_c09(rep, dict(rcfg, label=f"{rlabel}<-{slabel}"), ind, case)
+        if prop == "C09":
+            check_c09(rep, dict(rcfg, label=f"{rlabel}<-{slabel}"), ind, case)
+        else:  # the relations are about the reader's own arithmetic, whatever series it is given
+            check_c10(rep, dict(rcfg, label=f"{rlabel}<-{slabel}", kw=fed_kw(rcfg, scfg, sfield)), ind, case)
 
 
 def explore_fed(item):
-    _, tier, rlabel, slabel, sfield, tfc, first = item
+    prop, tier, rlabel, slabel, sfield, tfc, first = item
     sp = spaces(tier)
     rep = Report()
     for (fam, word), raw in streams(sp, tfc[0], first):
-        run_fed(rep, rlabel, slabel, sfield, tfc, fam, word, raw, sp["horizon"])
+        run_fed(rep, rlabel, slabel, sfield, tfc, fam, word, raw, sp["horizon"], prop)
     rep.sample({"reader": rlabel, "source": slabel + ("." + sfield if sfield else ""), "tfc": tfc_label(tfc)})
     return rep
 
@@ -440,7 +449,8 @@ def replay(case):
     if case.get("fed"):
         if case["oracle"] == "horizon":
             return True
-        run_fed(rep, case["cfg"], case["fed"][0], case["fed"][1], tuple(case["tfc"]), case["fam"], case["word"], [tuple(r) for r in case["raw"]], 30)
+        run_fed(rep, case["cfg"], case["fed"][0], case["fed"][1], tuple(case["tfc"]), case["fam"], case["word"], [tuple(r) for r in case["raw"]], 30,
+                "C09" if case["oracle"] in ("raised", "value", "gap") else "C10")
         return bool(rep.viol)
     prop = "C09" if case["oracle"] in ("raised", "value", "gap") else "C10"
     if case["oracle"] == "horizon":
@@ -468,9 +478,11 @@ def main(prop, tier):
                 if tfc[0]:
                     items.append((prop, tier, cfg["label"], tfc, ("micro", f)))
     reps = pmap(explore, items, chunksize=4)
-    if prop == "C09":
+    if True:
         fitems = []
         for rl in fed_readers():
+            if prop == "C10" and BY_LABEL[rl].get("cls") == "STOCH":
+                continue  # %K of a series that is not confined to [low, high] is not confined to [0, 100]
             for sl, sf in FED_SOURCES:
                 if BY_LABEL[rl].get("cls") == BY_LABEL[sl]["cls"] and BY_LABEL[rl]["kw"].get("period") == BY_LABEL[sl]["kw"].get("period"):
                     continue  # the reader would carry the very name of its source
@@ -485,7 +497,7 @@ def main(prop, tier):
             "{+1,-1,0 with wicks, 0 flat zero-volume, +2,-2 bodies}^<=n incl. all monotone runs; stutter words with runs of 16+ identical "
             "candles) x every indicator config x {base, T2, T2+fill}, run one-append-at-a-time and in batch; the invariant is evaluated on "
             "every stored reading of the final state; non-trivial = distinct (config, timeframe config, word, mode) with at least one "
-            "non-None top-level reading; C09 additionally: every config that accepts a named input (input_value / indicator arguments) fed, "
+            "non-None top-level reading; additionally: every config that accepts a named input (input_value / indicator arguments) fed, "
             "inside a Hexital, by each of the sources SMA, RSI, ROC, MACD.MACD, STOCH.k (readings that start as None, can be 0 / 100 / negative) "
             "over the absolute and stutter families, appended one by one and in batch")
     bounds = {k: v for k, v in sp.items() if k != "tfcs"}
